@@ -4,7 +4,7 @@ import json
 import os
 import shutil
 
-from .. import lex, obs, corpus, cfggen
+from .. import lex, obs, corpus, cfggen, hazard
 from ..common import pmap, log, tlc_retry, SPEC, sh
 from . import pipeline_engine as pe
 from . import c02
@@ -111,6 +111,7 @@ def run(ctx):
         obs.write(src, gen_program(ctx.rng, lang).encode("utf-8"))
         cfgt = cfggen.random_ws_config(ctx.rng, unc) if k % 4 else ""
         jobs.append(("gen|%d|%s" % (k, lang), src, None, cfgt, lang))
+    jobs += hazard.jobs(unc, ctx.rng, quick, ctx.work.sub("dense"))
     res = c02.observe_jobs(ctx, jobs)
     events = []
     for evs, info, j in res:
